@@ -217,6 +217,9 @@ func runC15(r *hk.Run) {
 	// C3. several live responses on one transport, read interleaved
 	w.interleaved()
 
+	// C4. configuration programs over transports / clients related by Clone
+	w.cloneCells()
+
 	// D. network errors in mid-body (oracle only)
 	w.netErrors()
 
